@@ -239,6 +239,14 @@ fn run(ctx: &Ctx) {
         case.budget = 100 * m.trace.steps.max(100) + 10_000;
         lines.push(x_line(&case, with_jit));
     }
+    // dense straight-line programs (worst-case code size at every length; the two builds size
+    // their code buffers in different code paths)
+    let dg = gen::dense_alu(300);
+    for _ in 0..ctx.share(1_500 * scale) {
+        let mut case = sample(&dg, &mut tr);
+        case.budget = 100_000;
+        lines.push(x_line(&case, true));
+    }
     // evaluate in chunks so that a failure is reported early
     for chunk in lines.chunks(2000) {
         let std_out: Vec<String> = chunk.iter().map(|l| std_eval(&mut runner, l)).collect();
